@@ -149,7 +149,9 @@ FieldsDef(kind) ==
           <<Map("schemas", "Schema"), Map("responses", "Response"), Map("parameters", "Parameter"),
             Map("examples", "Example"), Map("requestBodies", "RequestBody"), Map("headers", "Header"),
             Map("securitySchemes", "SecurityScheme"), Map("links", "Link"), Map("callbacks", "Callback")>>
-     [] kind = "Paths" -> <<Obj("/p", "PathItem"), Obj("/q/{id}", "PathItem")>>
+     (* the entries of a map-like kind are its own keys: the root path, a trailing slash next to its namesake, upper case *)
+     [] kind = "Paths" -> <<Obj("/p", "PathItem"), Obj("/q/{id}", "PathItem"), Obj("/", "PathItem"), Obj("/p/", "PathItem"),
+                            Obj("/P/{Id}.json", "PathItem")>>
      [] kind = "PathItem" ->
           <<PRef("$ref"), Str("summary"), Str("description"), Obj("get", "Operation"), Obj("put", "Operation"),
             Obj("post", "Operation"), Obj("delete", "Operation"), Obj("options", "Operation"),
@@ -168,7 +170,8 @@ FieldsDef(kind) ==
                                 Map("encoding", "Encoding")>>
      [] kind = "Encoding" -> <<Str("contentType"), Map("headers", "Header"), Str("style"),
                                BoolP("explode", "keep"), Bool("allowReserved")>>
-     [] kind = "Responses" -> <<Obj("default", "Response"), Obj("200", "Response"), Obj("4XX", "Response")>>
+     [] kind = "Responses" -> <<Obj("default", "Response"), Obj("200", "Response"), Obj("4XX", "Response"), Obj("404", "Response"),
+                                Obj("5xx", "Response")>>
      [] kind = "Response" -> <<StrPR("description"), Map("headers", "Header"), Map("content", "MediaType"),
                                Map("links", "Link")>>
      [] kind = "Callback" -> <<Obj("{$request.body#/url}", "PathItem"), Obj("http://h/{$request.query.id}", "PathItem")>>
@@ -291,6 +294,13 @@ MapKeys2(fd) ==
 AnyV == Ov(<<"a", "b", "e", "f">>,
            <<Av(<<Nm("1"), Sv("x"), N, Bv(TRUE), Bv(FALSE), Nm("0"), Sv(""), Nm("-2.5")>>),
              O1("c", Nm("0.5")), EmptyO, EmptyA>>)
+(* more shapes of a free-form value: a non-empty array at the top (arrays in arrays, an object with a    *)
+(* null member), an object whose members are null / look like the library's own keywords ($ref, type,    *)
+(* x-), a float, a number written with an exponent (10^21: exact in float64, written 1e+21 by Go)        *)
+AnyArr   == Av(<<Av(<<Av(<<Nm("1")>>), EmptyA>>), Ov(<<"n", "o">>, <<N, O1("deep", Av(<<N>>))>>), Sv("s"), Nm("-0.5")>>)
+AnyNest  == Ov(<<"n", "$ref", "type", "x-in", "required", "k.1/2 3">>,
+               <<N, Sv("#/not/a/reference"), Nm("5"), O1("x-x", N), Bv(TRUE), Av(<<Bv(FALSE)>>)>>)
+Exp21    == "1000000000000000000000"
 BigInt   == "9007199254740993"        \* 2^53 + 1
 BigI64   == "9223372036854775807"     \* max int64
 ZeroOf(c) ==
@@ -301,7 +311,7 @@ ZeroOf(c) ==
 CanRef(fd) == fd.c \in {"obj", "map", "arr", "sob"} /\ fd.k \in RefKinds
 Variants(fd) ==
    {"v"} \cup (IF fd.zr # "none" THEN {"z"} ELSE {})
-         \cup (IF fd.c = "any" THEN {"zf", "z0", "zs", "ze", "za", "null", "big", "s"} ELSE {})
+         \cup (IF fd.c = "any" THEN {"zf", "z0", "zs", "ze", "za", "null", "big", "s", "t", "flt", "exp", "arr", "nest"} ELSE {})
          \cup (IF fd.c = "num" THEN {"big", "neg"} ELSE {})
          \cup (IF fd.c = "umax" THEN {"big"} ELSE {})
          \cup (IF fd.c = "sob" THEN {"f"} ELSE {})
@@ -343,6 +353,8 @@ Val(kind, fd, var) ==
           [] fd.c = "any"  -> CASE var = "zf" -> Bv(FALSE) [] var = "z0" -> Nm("0") [] var = "zs" -> Sv("")
                                 [] var = "ze" -> EmptyO [] var = "za" -> EmptyA [] var = "null" -> N
                                 [] var = "big" -> Nm(BigInt) [] var = "s" -> Sv(StrOf(fd.n))
+                                [] var = "t" -> Bv(TRUE) [] var = "flt" -> Nm("0.1") [] var = "exp" -> Nm(Exp21)
+                                [] var = "arr" -> AnyArr [] var = "nest" -> AnyNest
                                 [] OTHER -> AnyV
           [] fd.c = "anys" -> Av(<<Sv("a"), Nm("1"), N, Bv(FALSE), O1("o", EmptyA)>>)
           [] fd.c = "strs" -> Av(<<Sv(StrOf(fd.n)), Sv("b")>>)
@@ -524,6 +536,97 @@ Between(lo, x, hi) ==
 
 FirstTripOK(ver, in, j1) == Between(Norm(ver, in), j1, in)
 IsNormal(ver, in) == Same(Norm(ver, in), in)
+
+(***************************************************************************)
+(* Receivers and entry points (history).  "Parsing" is an operation ON A    *)
+(* VALUE: json.Unmarshal / yaml.Unmarshal / UnmarshalJSON fill a T the      *)
+(* caller owns, and a Loader is an object that is used for one document      *)
+(* after another.  L1: what is serialised after a successful parse is a      *)
+(* function of the parsed input alone -- whatever the receiver held before   *)
+(* (nothing, an earlier document, the debris of a parse that failed          *)
+(* half-way) has no influence: nothing of an earlier document "appears".     *)
+(* A history is a sequence of prior documents parsed into the receiver       *)
+(* before the document under test.                                           *)
+(*   Entries: how the receiver is filled                                     *)
+(*     json  json.Unmarshal(data, &t)        yaml  yaml.Unmarshal(data, &t)  *)
+(*     meth  t.UnmarshalJSON(data)           alt   json, yaml, json ... in turn *)
+(*     loader (OpenAPI 3) one Loader, LoadFromData for every document        *)
+(*     lpath  (OpenAPI 3) one Loader, LoadFromDataWithPath, a new file name in one directory each time *)
+(* L2 (implementation-shaped): how UnmarshalJSON of the root treats its      *)
+(* receiver.  "replace" (the code: decode into a fresh value, then assign    *)
+(* the whole struct) satisfies L1; "inplace" (decode into the receiver:      *)
+(* encoding/json assigns only the struct fields whose keys occur in the      *)
+(* input; the extension map is rebuilt) does not -- MC_C03H pins both.       *)
+(***************************************************************************)
+HistEntries(ver) == {"json", "yaml", "meth", "alt"} \cup (IF ver = 3 THEN {"loader", "lpath"} ELSE {})
+(* prior documents, by name: every optional root field populated (inline) with extension and unknown key;  *)
+(* the bare root; the full document with one field of the wrong JSON type placed last, so that the parse   *)
+(* fails after the fields before it have been decoded.                                                     *)
+(* "xdoc" (OpenAPI 3): every component collection holds a reference into the external document, the two   *)
+(* paths are a whole-file and a fragment reference: a Loader that has loaded it has every external         *)
+(* resource in its caches when the document under test asks for the same ones.                            *)
+PriorNames(ver) == {"full", "min", "bad"} \cup (IF ver = 3 THEN {"xdoc"} ELSE {})
+PriorParses(name) == name # "bad"
+RootFullFv(ver) == LET kind == Root(ver) IN
+   {n \in Optional(kind) : FieldOf(kind, n).c # "pref"}
+RECURSIVE ApplyV(_, _, _)
+ApplyV(kind, obj, names) ==
+   IF names = {} THEN obj
+   ELSE LET n == CHOOSE q \in names : TRUE
+        IN ApplyV(kind, SetKey(obj, n, Val(kind, FieldOf(kind, n), "v")), names \ {n})
+PriorFull(ver) ==
+   LET kind == Root(ver)
+       o == ApplyV(kind, Min(kind), RootFullFv(ver))
+   IN WithTargets(ver, SetKey(SetKey(o, "x-prior", AnyV), "priorUnknown", O1("u", Nm("1"))))
+(* `tags' must be an array: a string there is a type error of the root decoder; tags is moved to the end *)
+PriorBad(ver) ==
+   LET f == PriorFull(ver)
+       keep == [i \in DOMAIN f.k |-> f.k[i] # "tags"]
+   IN Ov(Append(Pick(f.k, keep, 1), "tags"), Append(Pick(f.v, keep, 1), Sv("not-an-array")))
+PriorX ==
+   LET cf == Fields("Components")
+       comps == Ov([i \in DOMAIN cf |-> cf[i].n], [i \in DOMAIN cf |-> Val("Components", cf[i], "xfrag")])
+       paths == Ov(<<"/p", "/q/{id}">>, <<O1("$ref", Sv(XRefStr("PathItem"))), O1("$ref", Sv(XFragStr("PathItem")))>>)
+   IN SetKey(SetKey(Min("T3"), "paths", paths), "components", comps)
+PriorDoc(ver, name) == CASE name = "full" -> PriorFull(ver) [] name = "min" -> Min(Root(ver)) [] name = "bad" -> PriorBad(ver)
+                         [] name = "xdoc" -> PriorX
+
+RecvPolicies == {"replace", "inplace"}
+(* the abstract content of a receiver: a document value, or EmptyO for the zero value *)
+DecodeInto(policy, ver, old, name, new) ==
+   LET ok == name = "target" \/ PriorParses(name)
+       (* in place: catalogue fields of the old content that the input does not mention stay; extension and unknown keys are rebuilt from the input *)
+       stale == [i \in DOMAIN old.k |-> old.k[i] \in FieldNames(Root(ver)) /\ ~HasKey(new, old.k[i])]
+       merged == Merge(Ov(Pick(old.k, stale, 1), Pick(old.v, stale, 1)), new)
+   IN IF policy = "replace" THEN (IF ok THEN new ELSE old) ELSE merged
+RECURSIVE RecvFold(_, _, _, _, _)
+RecvFold(policy, ver, old, names, i) ==
+   IF i > Len(names) THEN old
+   ELSE RecvFold(policy, ver, DecodeInto(policy, ver, old, names[i], PriorDoc(ver, names[i])), names, i + 1)
+(* what the receiver holds after the history and the document under test *)
+RecvAfter(policy, ver, names, target) == DecodeInto(policy, ver, RecvFold(policy, ver, EmptyO, names, 1), "target", target)
+(* L1 on the model: the receiver's content is the document under test *)
+RecvL1(policy, ver, names, target) == Same(RecvAfter(policy, ver, names, target), target)
+
+(* Kind-level receivers.  Every object kind is a public type with its own UnmarshalJSON ("sets X to a    *)
+(* copy of data"), and every referable kind has a wrapper type (SchemaRef ...: a reference or a value).   *)
+(* The same clause at that level: a value of the kind's type (entry "kind") or of its wrapper type (entry *)
+(* "wrap") that already holds an object -- a reference object, the bare object, the object with every     *)
+(* field, extension and unknown key -- is unmarshalled into again; what it serialises to afterwards is    *)
+(* what a fresh value gives for the same input.  The input is the bare object of the case (Gen_C03!Frag), *)
+(* not a document.                                                                                         *)
+WrapKinds == {"Schema", "Response", "Parameter", "Example", "RequestBody", "Header", "SecurityScheme", "Link",
+              "Callback", "Schema2"}
+KindEntries(kind) == {"kind"} \cup (IF kind \in WrapKinds THEN {"wrap"} ELSE {})
+KPriorNames(kind, entry) == {"kfull", "kmin"} \cup (IF entry = "wrap" THEN {"kref", "krefx"} ELSE {})
+KFull(kind) ==
+   LET names == {n \in Optional(kind) : FieldOf(kind, n).c # "pref" /\ ~\E p \in Excl(kind) : p[2] = n}
+       o == ApplyV(kind, Min(kind), names)
+   IN IF UnkOK(kind) THEN SetKey(SetKey(o, "x-prior", AnyV), "priorUnknown", O1("u", Nm("1")))
+      ELSE IF ExtOK(kind) THEN SetKey(o, "x-prior", AnyV) ELSE o
+KPriorDoc(kind, name) ==
+   CASE name = "kfull" -> KFull(kind) [] name = "kmin" -> Min(kind)
+     [] name = "kref" -> RefObj(kind) [] name = "krefx" -> RefSib(kind)
 
 (* first difference between two values, as a JSON-pointer-like path (for reports) *)
 RECURSIVE Diff(_, _)
